@@ -99,7 +99,7 @@ SPEC['C19'] = ('An aborted build leaves the Pie instance usable and sound', ['Lo
   ('C19_no_output_executes', 'Local', 'make_consistent_no_output',
    'a task without output (new, or its last execution aborted) is executed without inspecting its left-over dependencies (so a ReservedRequire edge is never consistency-checked)'),
 ], 'No-internal-error and invariant recovery are proved for all top-down histories (ExecInv.v, ExecSession.v); that later builds return from-scratch results (the C01 clause) is decided by correspondence + oracle (panic injected at arbitrary operations).')
-SPEC['C20'] = ('Incremental builds abort only for violations that exist now', ['Local', 'History', 'ExecInv', 'ExecSession', 'Cert', 'Stable', 'NoBug4', 'Sim', 'NoAbort', 'Final', 'Findings'], [
+SPEC['C20'] = ('Incremental builds abort only for violations that exist now', ['Local', 'History', 'ExecInv', 'ExecSession', 'Cert', 'Stable', 'NoBug4', 'Sim', 'NoAbort', 'Final', 'NoAbortAll', 'Findings'], [
   ('C20_write_abort_iff_recorded', 'Local', 'validate_write_none', 'a write is accepted exactly when no writer is recorded and every recorded reader transitively requires the writer'),
   ('C20_write_abort_only_then', 'Local', 'sess_write_abort_only', 'aborts of a write come only from that diagnosis'),
   ('C20_read_abort_only_then', 'Local', 'sess_read_hidden_only', 'aborts of a read come only from a recorded writer that is not a transitive dependency'),
@@ -178,6 +178,11 @@ TOTAL_BINDERS = '''  forall (gen : res -> option task) (wck : rcid -> Prop) (ord
   (forall t, WFO ord t (P t)) ->                                     (* requires go down in a well-founded order; no task panics *)
 '''
 RAW['C20'] = [
+  ('C20_static_class_never_aborts_any_history',
+   'the first clause for ALL histories: in the static class no build of ANY history aborts -- top-down requires and bottom-up builds in any mix (NoAbortAll.v: anchor-style pass carrying the invariants of NoBugAll.v, the exact-record invariant K of CertAll.v and Q of NoAbort.v); a build either completes or runs out of the model fuel',
+   TOTAL_BINDERS + """  forall fuel h,
+  Forall (Forall (fun r => match r with RAbort _ => False | _ => True end)) (fst (run_history RC OC P always fuel init_world h))""",
+   'intros gen wck ord RC OC P sf always HS HWF HWO fuel h. exact (static_class_never_aborts_any_history gen wck ord RC OC P sf HS HWF HWO always fuel h).'),
   ('C20_static_class_never_aborts',
    'first clause of the property, as a theorem: for well-formed programs (static class WFP + WFO: they contain no violation in any state) NO session of ANY history of top-down sessions and external changes ever aborts -- no cycle, hidden-dependency or overlapping-write diagnosis can fire, whatever the store recorded in earlier states -- and every require returns (fuel above the height of the required roots). Invariant Q of NoAbort.v: recorded requires go down in ord, recorded writes are own products, every recorded read of a generated resource has its generator among the recorded requires',
    TOTAL_BINDERS + """  forall fuel h, hist_below ord fuel h ->
